@@ -37,6 +37,13 @@ func buildShovelBinary(e *core.Env) (string, error) {
 	}
 	dir := filepath.Join(e.VerifDir, "harness", "bin")
 	os.MkdirAll(dir, 0o755)
+	if old, _ := filepath.Glob(filepath.Join(dir, "shovel-under-test-*")); len(old) > 0 {
+		for _, f := range old { // left behind by a run that was killed
+			if st, err := os.Stat(f); err == nil && time.Since(st.ModTime()) > 30*time.Minute {
+				os.Remove(f)
+			}
+		}
+	}
 	out := filepath.Join(dir, fmt.Sprintf("shovel-under-test-%d", os.Getpid()))
 	cmd := exec.Command("go", "build", "-o", out, "./cmd/shovel")
 	cmd.Dir = e.RepoDir
